@@ -382,7 +382,7 @@ func init() {
 		c.Set("states", r.Distinct)
 		c.Set("transitions", r.Generated)
 		// random walks over the larger configuration (merges, three objects, longer programs)
-		scfg := writeCfgVariant(c, "Push_t.cfg", "Push_sim.cfg", map[string]string{"Emit = FALSE": "Emit = TRUE", "MaxSteps = 7": "MaxSteps = 9"})
+		scfg := writeCfgVariant(c, "Push_t.cfg", "Push_sim.cfg", map[string]string{"Emit = FALSE": "Emit = TRUE", "MaxSteps = 6": "MaxSteps = 9", "MaxCommits = 4": "MaxCommits = 5"})
 		nsim := 400
 		if !c.Quick() {
 			nsim = 4000
